@@ -172,9 +172,9 @@ func (t *asyncTracer) QueueEnd(_ am.Api) {
 }
 
 const (
-	asyncStall  = 8 * time.Second        // a driver-side wait that must succeed
+	asyncStall  = 8 * time.Second         // a driver-side wait that must succeed
 	asyncGrace  = 2500 * time.Millisecond // time the helper gets to report an activation
-	asyncSettle = 30 * time.Millisecond  // time it gets when there is nothing to report
+	asyncSettle = 30 * time.Millisecond   // time it gets when there is nothing to report
 )
 
 func acts(tick uint64) uint64 { return (tick + 1) / 2 }
